@@ -232,3 +232,41 @@ def hierarchy_vector(rng, leaves, n_ids):
     top = np.concatenate([leaf_top(rng, l, n_ids) for l in leaves])
     cov = rng.uniform(-1, 1, size=(n_ids, h.n_cov)) if h.n_cov else None
     return h, np.concatenate([bottom, top]), cov
+
+
+def separated_top(leaves, n_ids):
+    """
+    top-level vector whose dimensions are far apart (location 3*(dim+1) on
+    the natural scale of each model, scale 0.05, no covariate effect), and
+    the (prior mean, prior sd) to sample it tightly.  Used to check that
+    sampled individual-level entries belong to *their* dimension.
+    returns (top, prior_sd, locations) with locations[global dim] =
+    (kind, centered, location)
+    """
+    top, sd, loc = [], [], {}
+    gd = 0
+    for l in leaves:
+        d = l.n_dim
+        k = l.kind
+        if k in 'GLT':
+            means = [(g + 1.0) if k == 'L' else 3.0 * (g + 1)
+                     for g in range(gd, gd + d)]
+            top += means + [0.05] * d
+            sd += [0.01] * d + [0.002] * d
+        elif k == 'P':
+            means = [3.0 * (g + 1) + 0.5 for g in range(gd, gd + d)]
+            top += means
+            sd += [0.01] * d
+        else:
+            means = [3.0 * (g + 1) for g in range(gd, gd + d)]
+            for i in range(n_ids):
+                top += [m + 0.1 * i for m in means]
+            sd += [0.01] * (n_ids * d)
+        for j in range(d):
+            loc[gd + j] = (k, l.centered, means[j])
+        if l.cov:
+            nb = len(l.cov['sel']) * l.cov['n_cov']
+            top += [0.0] * nb
+            sd += [1e-5] * nb
+        gd += d
+    return np.array(top), np.array(sd), loc
